@@ -145,10 +145,10 @@ Fixpoint dotted (p : list bytes) : list tok :=
 
 Section Print.
 Variable c : cfg0.
-(* one statement per line: indentation, the statement, the line ending *)
+(* one statement per line: indentation, the statement, the line ending.
+   The lines of a block are written with map / concat so that the unfolding equations hold by computation. *)
 Fixpoint pstmt (d : nat) (s : stmt) {struct s} : list tok :=
-  let block := fix block (b : list stmt) : list tok :=
-    match b with [] => [] | s :: r => indent c (S d) ++ pstmt (S d) s ++ eol c :: block r end in
+  let block (b : list stmt) : list tok := List.concat (map (fun x => indent c (S d) ++ pstmt (S d) x ++ [eol c]) b) in
   let fbody (b : list stmt) : list tok :=
     match b with [] => [sp; kw "end"] | _ => eol c :: block b ++ indent c d ++ [kw "end"] end in
   match s with
@@ -159,14 +159,7 @@ Fixpoint pstmt (d : nat) (s : stmt) {struct s} : list tok :=
   | SDo b => kw "do" :: eol c :: block b ++ indent c d ++ [kw "end"]
   | SWhile e b => kw "while" :: sp :: pexp e ++ sp :: kw "do" :: eol c :: block b ++ indent c d ++ [kw "end"]
   | SRepeat b e => kw "repeat" :: eol c :: block b ++ indent c d ++ kw "until" :: sp :: pexp e
-  | SIf e t r =>
-    kw "if" :: sp :: pexp e ++ sp :: kw "then" :: eol c :: block t ++
-    (fix pels (r : els) : list tok :=
-       match r with
-       | NoElse => []
-       | Else b => indent c d ++ kw "else" :: eol c :: block b
-       | ElseIf e2 t2 r2 => indent c d ++ kw "elseif" :: sp :: pexp e2 ++ sp :: kw "then" :: eol c :: block t2 ++ pels r2
-       end) r ++ indent c d ++ [kw "end"]
+  | SIf e t r => kw "if" :: sp :: pexp e ++ sp :: kw "then" :: eol c :: block t ++ pels d r ++ indent c d ++ [kw "end"]
   | SNumFor v a b st body =>
     kw "for" :: sp :: TIdent v :: sp :: kw "=" :: sp :: pexp a ++ kw "," :: sp :: pexp b ++
     (match st with Some x => kw "," :: sp :: pexp x | None => [] end) ++ sp :: kw "do" :: eol c :: block body ++ indent c d ++ [kw "end"]
@@ -178,9 +171,16 @@ Fixpoint pstmt (d : nat) (s : stmt) {struct s} : list tok :=
   | SReturn [] => [kw "return"]
   | SReturn es => kw "return" :: sp :: pexps es
   | SBreak => [kw "break"]
+  end
+with pels (d : nat) (r : els) {struct r} : list tok :=
+  let block (b : list stmt) : list tok := List.concat (map (fun x => indent c (S d) ++ pstmt (S d) x ++ [eol c]) b) in
+  match r with
+  | NoElse => []
+  | Else b => indent c d ++ kw "else" :: eol c :: block b
+  | ElseIf e2 t2 r2 => indent c d ++ kw "elseif" :: sp :: pexp e2 ++ sp :: kw "then" :: eol c :: block t2 ++ pels d r2
   end.
-Fixpoint pprog (p : list stmt) : list tok :=
-  match p with [] => [] | s :: r => pstmt 0 s ++ eol c :: pprog r end.
+Definition pblock (d : nat) (b : list stmt) : list tok := List.concat (map (fun x => indent c d ++ pstmt d x ++ [eol c]) b).
+Definition pprog (p : list stmt) : list tok := pblock 0 p.
 End Print.
 
 (* the formatter on L0: bytes of the output for a program *)
